@@ -48,16 +48,18 @@ PROPS['C01'] = dict(
 )
 
 PROPS['C02'] = dict(
-    modules=['Vivid.Props.C02'],
+    modules=['Vivid.Props.C02', 'Vivid.Props.C02Order'],
     gens=[],
-    engines=[dict(name='ring', must_hit=['growth', 'growth-boundaries-crossed']), dict(name='mailbox', must_hit=[])],
+    engines=[dict(name='ring', must_hit=['growth', 'growth-boundaries-crossed']), dict(name='mailbox', must_hit=[]),
+             dict(name='actorsys', only=r'LOST-USER-MESSAGE|ended twice|PANIC|FATAL', must_hit=['ev:dead-letter'])],
     rule='ring: every Push/Pop sequence of length <= 12 (and Push/Pop/PopMany(2) of length <= 8) from initial sizes 1..4 (exhaustive), '
          'then long seeded random runs from sizes 256,1,2,3,5,8,16 with drain phases crossing many growth boundaries; New(0)+Push is the excluded point (panics on both sides). '
-         'Non-trivial = at least one growth. mailbox: per-sender FIFO and system-before-user are monitored on the real mailbox under the baton scheduler.',
+         'Non-trivial = at least one growth. mailbox: per-sender FIFO and system-before-user are monitored on the real mailbox under the baton scheduler. '
+         'actorsys: the order clauses stated on M10 (C02Order: system first, user FIFO, Kill = system / poison Kill = user message, Unstash order) are tied by the actor-system lock-step: every step compares queue lengths, stash ids and what each behaviour saw, in order.',
     exhaustive=True,
     trusted_base=COMMON_TRUST + ['int64 indices modelled as Nat (overflow needs 2^62 queued items)'],
     assumptions=['ring operations are atomic (sync.Mutex); stash order and kill ordering are covered with the actor-system model (C03/C06 engines)'],
-    explanation='Refinement proof: for every initial size n > 0 and every operation sequence the ring returns what a list FIFO returns (induction over ops; growth case included).',
+    explanation='Refinement proof: for every initial size n > 0 and every operation sequence the ring returns what a list FIFO returns (induction over ops; growth case included); order clauses (system first, user FIFO, kill kinds, unstash order) as theorems on the actor-system model.',
 )
 
 PROPS['C17'] = dict(
